@@ -21,7 +21,9 @@ CATALOGUE = [
     [1234567, 754321, 21], [1234567, 1654321, 21], [654321, 1234567, 21],
 ]
 DIMSETS = [None, {'time': '2020'}, {'time': '2021'}, {'time': 'default'},
-           {'time': '2020', 'elevation': '5'}, {'time': '2020', 'dim_level': '700'}]
+           {'time': '2020', 'elevation': '5'}, {'time': '2020', 'dim_level': '700'},
+           # an ISO 8601 interval (the usual TIME value of a WMTS layer) and its look-alike without the solidus
+           {'time': '2020-01-01/2020-02-01'}, {'time': '2020-01-01_2020-02-01'}]
 COLORS = [[255, 0, 0], [0, 0, 255], [0, 0, 0]]
 
 
